@@ -78,12 +78,14 @@ func runSM(s SMScript) (nontrivial bool, key string, f *vt.Finding) {
 		}
 	}
 	cSM.HangGuard(120*time.Second, s, "hang/check", func() {
-		nontrivial, f = runSMInner(&s, th)
+		nontrivial, f = runSMInner(cSM, &s, th)
 	})
 	return nontrivial, key, f
 }
 
-func runSMInner(s *SMScript, th Thr) (nontrivial bool, f *vt.Finding) {
+// runSMInner executes the steps against a fresh limiter and judges every check
+// against the reference state machine for thresholds th; classes go to c.
+func runSMInner(c *vt.C, s *SMScript, th Thr) (nontrivial bool, f *vt.Finding) {
 	cfg := s.Cfg.real(time.Hour) // the ticker never fires: checks are explicit
 	if err := cfg.Validate(); err != nil {
 		return false, vt.Failf("harness/config", "generated config rejected by Validate: %v (%v)", err, s.Cfg)
@@ -97,9 +99,9 @@ func runSMInner(s *SMScript, th Thr) (nontrivial bool, f *vt.Finding) {
 	if err != nil {
 		return false, vt.Failf("harness/new", "NewMemoryLimiter: %v (%v)", err, s.Cfg)
 	}
-	cSM.Class("form:"+th.Form, fmt.Sprintf("gc-intervals:soft=%dms,hard=%dms", s.Cfg.SoftGCms, s.Cfg.HardGCms))
+	c.Class("form:"+th.Form, fmt.Sprintf("gc-intervals:soft=%dms,hard=%dms", s.Cfg.SoftGCms, s.Cfg.HardGCms))
 	if !th.SoftExact || !th.HardExact {
-		cSM.Class("threshold-inexact(rounding band avoided)")
+		c.Class("threshold-inexact(rounding band avoided)")
 	}
 	flips, prev := 0, false
 	for i, st := range s.Steps {
@@ -135,20 +137,20 @@ func runSMInner(s *SMScript, th Thr) (nontrivial bool, f *vt.Finding) {
 			if g != 0 {
 				return true, vt.Failf("gc/before-min-interval/"+sev, "%s: %d forced GC although at most %v passed since the last one (min interval %v, %s-limited)", where, g, elMax, iv, sev)
 			}
-			cSM.Class("gc-suppressed-by-interval/" + sev)
+			c.Class("gc-suppressed-by-interval/" + sev)
 			if iv != time.Duration(hourMS)*time.Millisecond {
-				cSM.Class("gc-suppressed-by-REAL-interval")
+				c.Class("gc-suppressed-by-REAL-interval")
 			}
 		case elMin > 0 && elMin >= 2*iv:
 			if g == 0 {
 				return true, vt.Failf("gc/missing-when-due/"+sev, "%s: no forced GC although usage is above the soft limit and at least %v passed since the last one (min interval %v, %s-limited)", where, elMin, iv, sev)
 			}
-			cSM.Class("gc-due/" + sev)
+			c.Class("gc-due/" + sev)
 			if iv > 0 {
-				cSM.Class("gc-due-after-REAL-interval")
+				c.Class("gc-due-after-REAL-interval")
 			}
 		default:
-			cSM.Class("interval-zone-not-asserted(between half and twice)")
+			c.Class("interval-zone-not-asserted(between half and twice)")
 		}
 		last := log[len(log)-1]
 		if g > 0 {
@@ -157,9 +159,9 @@ func runSMInner(s *SMScript, th Thr) (nontrivial bool, f *vt.Finding) {
 			}
 			gcLo, gcHi = t0, t1
 			if st.Post < th.Soft {
-				cSM.Class("gc-brought-usage-below-soft")
+				c.Class("gc-brought-usage-below-soft")
 			} else {
-				cSM.Class("gc-did-not-help")
+				c.Class("gc-did-not-help")
 			}
 		}
 		want := last.val >= th.Soft
@@ -171,19 +173,19 @@ func runSMInner(s *SMScript, th Thr) (nontrivial bool, f *vt.Finding) {
 			return true, vt.Failf("state/"+kind, "%s: after the check MustRefuse()=%v, but the most recent measurement is %d [%s] (readings in this check: %d, forced GCs: %d, previous state refusing=%v)",
 				where, got, last.val, th.place(last.val), len(log), g, prev)
 		}
-		cSM.Class("final-reading:" + th.place(last.val))
+		c.Class("final-reading:" + th.place(last.val))
 		if got != prev {
 			flips++
 			if got {
-				cSM.Class("transition:accept->refuse")
+				c.Class("transition:accept->refuse")
 			} else {
-				cSM.Class("transition:refuse->accept")
+				c.Class("transition:refuse->accept")
 			}
 		}
 		prev = got
 	}
 	if flips >= 2 {
-		cSM.Class("crosses-soft-limit>=2")
+		c.Class("crosses-soft-limit>=2")
 	}
 	return flips >= 2, nil
 }
